@@ -2,6 +2,7 @@ package lang
 
 import (
 	"cmp"
+	"fmt"
 	"math"
 	"slices"
 	"strings"
@@ -183,12 +184,16 @@ func getObjPrototype() *Value {
 				NativeFn: func(e *Evaluator, v []*Value, this *Value) (*Value, error) {
 					newObj := NewObject()
 					for _, value := range v {
-						val, err := this.GetMember(*value)
-						if err != nil {
-							return nil, err
+						if value.Tag != ValueNum && value.Tag != ValueStr {
+							return nil, fmt.Errorf("objects can only by indexed with numbers or strings, got %s", value.Tag)
 						}
 
-						if val == nil {
+						// only look at the object's own keys, GetMember would also find
+						// the methods of the prototype
+						val, present := (*this.Obj)[value.String()]
+
+						var err error
+						if !present {
 							_, err = newObj.SetMember(*value, NewCell(NewValue(nil)))
 						} else {
 							_, err = newObj.SetMember(*value, NewCell(val.Value))
